@@ -143,3 +143,7 @@ func ConcretizeByte(b byte, candidates string) byte {
 
 func Yield()   {}
 func WaitAll() {}
+
+// Memo returns f(); under the engine the (concrete, read-only) result is
+// computed once per key and shared by all paths.
+func Memo(key string, f func() interface{}) interface{} { return f() }
